@@ -282,7 +282,7 @@ def rule_gridworld(ctx: Ctx):
     ok = SR.solve([f"f = self._locFeatures.get({rns}, '')", "return self._featureRewards.get(f, 0.0) + self.step_cost"]) is not None and len(p) == 2
     ctx.check(ok, "GW-4", rw, last, "reward = step cost + feature reward of the *entered* cell", alg.show(p), f"reward is `{alg.show(p)}` / feature looked up at the wrong cell")
     ab = G.methods["is_absorbing"]
-    ctx.check("== TERMINALSTATE" in ast.unparse(ab.node), "GW-3", ab, ab.node, "only the terminal state is absorbing", "", "absorbing predicate changed")
+    ctx.check(Snips(ab).has(f"return {ab.positional_params[1]} == TERMINALSTATE"), "GW-3", ab, ab.node, "only the terminal state is absorbing", "", "absorbing predicate changed")
 
 
 def run(ctx: Ctx):
